@@ -19,7 +19,7 @@ from build import Builder  # noqa
 from gen_prog import Gen, gen_context, I, B  # noqa
 import c05_gen  # noqa
 
-PROOF_FILES = ["Proofs/StackSigProof.v", "Proofs/StackCheckSound.v"]
+PROOF_FILES = ["Proofs/StackSigProof.v", "Proofs/StackSigPool.v", "Proofs/StackCheckSound.v"]
 SHAPE_CLASSES = ("shape", "frame", "label", "off-end")
 
 
@@ -58,14 +58,10 @@ def dyn_run(model, ctx, teal):
             "calls": res[5][1], "op": res[6][1], "height": len(res[7]) - 1}
 
 
-def method_selectors(teal):
-    return ""
-
-
 # ------------------------------------------------------------------------------------------------
 # class predicates of the known findings
 # ------------------------------------------------------------------------------------------------
-OPERAND_NODES = ("op", "nary", "assert", "multi", "wide", "call", "pstore", "abiset")
+OPERAND_NODES = ("op", "nary", "assert", "multi", "wide", "call", "pstore", "abiset", "oset", "abicall")
 
 
 def ctrl_in_operand(r, in_op=False):
@@ -92,33 +88,43 @@ def ctrl_in_operand(r, in_op=False):
     return any(ctrl_in_operand(x, in_op) for x in r if isinstance(x, tuple))
 
 
-def norm_line(l):
-    """slot numbers and the distances of the spill shuffles depend on how many slots survive the optimiser"""
-    l = l.strip()
-    m = re.fullmatch(r"(load|store) \d+", l)
-    if m:
-        return m.group(1)
-    if re.fullmatch(r"(cover|uncover) \d+|swap", l):
-        return "shuffle"
-    m = re.fullmatch(r"(dig) \d+", l)
-    return m.group(1) if m else l
+def optimiser_orphans(pt, compile_fn):
+    """Observe the REAL optimiser (instrumented from outside, /repo untouched): run compile_fn() with
+    pyteal.compiler.compiler.apply_global_optimizations wrapped, and report for which routines it removed more
+    `store s` than `load s` ops of some slot s (a store without cancelling load: its value stays on the stack)."""
+    import pyteal.compiler.compiler as CC
+    from pyteal.ir import TealBlock, Op
 
+    def counts(start):
+        c = {}
+        for block in TealBlock.Iterate(start):
+            for op in block.ops:
+                o = op.getOp()
+                if o in (Op.store, Op.load) and op.args:
+                    a = op.args[0]
+                    d = c.setdefault(a if isinstance(a, int) else id(a), [0, 0])
+                    d[0 if o == Op.store else 1] += 1
+        return c
 
-def orphan_store_diff(unopt, opt):
-    """Is `opt` obtained from `unopt` by deleting only load/store lines and spill shuffles (slot numbers and shuffle
-    distances ignored), more stores than loads?"""
-    a = [norm_line(x) for x in unopt.split("\n")]
-    b = [norm_line(x) for x in opt.split("\n")]
-    j = 0
-    removed = {"load": 0, "store": 0, "shuffle": 0}    # a slot that disappears takes its spill code with it
-    for x in a:
-        if j < len(b) and x == b[j]:
-            j += 1
-        elif x in removed:
-            removed[x] += 1
-        else:
-            return False
-    return j == len(b) and removed["store"] > removed["load"]
+    found = []
+    orig = CC.apply_global_optimizations
+
+    def wrapped(start, *a, **kw):
+        before = counts(start)
+        out = orig(start, *a, **kw)
+        after = counts(out)
+        for k, (st, ld) in before.items():
+            st2, ld2 = after.get(k, [0, 0])
+            if (st - st2) > (ld - ld2):
+                found.append((st - st2, ld - ld2))
+        return out
+
+    CC.apply_global_optimizations = wrapped
+    try:
+        compile_fn()
+    finally:
+        CC.apply_global_optimizations = orig
+    return found
 
 
 # ------------------------------------------------------------------------------------------------
@@ -149,6 +155,7 @@ class Case:
             sd = by_key.get(m.group(1))
             if sd is None:
                 continue
+            # by-reference: the slot index; ABI values travel as their storage type (uint64 / encoded bytes)
             args = ["u" if k == "r" else t for k, t in zip(sd["kinds"], sd["ptypes"])][::-1]
             rets = [] if sd["ret"] == "n" else [sd["ret"]]
             decl.append((m.group(0)[:-1], args, rets))
@@ -172,14 +179,12 @@ def classify_known(ck, pt, model, c, st):
         f = ck.match_known(lambda f: f["id"] == "ctrl-in-operand")
         if f:
             return f
-    if c.optimiser_on():
+    if c.optimiser_on() and optimiser_orphans(pt, lambda: c.compile(pt)):
         r = c.compile(pt, ss=False)
-        if r[0] == "ok" and orphan_store_diff(r[1], c.real[1]):
-            st0 = static_check(model, r[1], c.declare(r[1]))
-            if st0["kind"] == "accept":
-                f = ck.match_known(lambda f: f["id"] == "optimizer-orphan-store")
-                if f:
-                    return f
+        if r[0] == "ok" and static_check(model, r[1], c.declare(r[1]))["kind"] == "accept":
+            f = ck.match_known(lambda f: f["id"] == "optimizer-orphan-store")
+            if f:
+                return f
     return None
 
 
@@ -198,7 +203,7 @@ def replay_known(ck, pt, model):
         un = c.compile(pt, ss=False)
         d = dyn_run(model, gen_context(ck.rng, True), c.real[1])
         out["orphan-main"] = (st, d)
-        if st["kind"] == "reject" and un[0] == "ok" and orphan_store_diff(un[1], c.real[1]) and static_check(model, un[1], [])["kind"] == "accept":
+        if st["kind"] == "reject" and un[0] == "ok" and optimiser_orphans(pt, lambda: c.compile(pt)) and static_check(model, un[1], [])["kind"] == "accept":
             ck.known("optimizer-orphan-store", "optimiser (scratch_slots=True) deletes both stores of x.store(1); x.store(2); Return(x.load()) -> `%s`: the routine exits with %s values"
                      % ("; ".join(c.real[1].split("\n")[1:]), d["height"] if d else "?"))
     sub = {"key": "s0", "kinds": ["v"], "ptypes": ["u"], "ret": "u", "rec": None, "nabi": 0,
@@ -357,6 +362,11 @@ def main(argv):
                 k = "inconclusive"
             dyn[k] = dyn.get(k, 0) + 1
             bad = None
+            if d["verdict"] == "fail" and d["typed"] and st["kind"] == "accept" and (
+                    (st["strict"] and d["cls"] in SHAPE_CLASSES) or d["cls"] in ("frame", "label", "off-end")):
+                # excluded by C05_no_anytype_no_type_error / C05_no_underflow_or_frame_failure: the machinery is inconsistent
+                ck.model_problem("theorem contradicted by an execution: checker accepted (strict=%s) but the run ends in a %s failure at pc %s (`%s`)"
+                                 % (st["strict"], d["cls"], d["pc"], d["op"]))
             if d["verdict"] == "fail" and d["cls"] in SHAPE_CLASSES and d["typed"]:
                 bad = "a run of the real TEAL ends in a %s failure at pc %s (`%s`)" % (d["cls"], d["pc"], d["op"])
             elif d["verdict"] in ("approve", "reject") and d["op"] == "return" and d["calls"] == 0 and d["height"] != 1:
@@ -390,7 +400,7 @@ def main(argv):
                 consider(Case("small", r, [], v, app, None, None), 1)
     ck.coverage["small_shapes"] = len(smalls)
     # ---- 2. random main-routine programs (the C01 generator)
-    n_main = 5000 if thorough else 500
+    n_main = 5000 if thorough else 400
     for i in range(n_main):
         version, app, ss, fp = random_case_params(rng)
         cio = rng.random() < 0.04
@@ -403,7 +413,7 @@ def main(argv):
             hist[k] = hist.get(k, 0) + v
         consider(Case("main", r, [], version, app, ss, fp), 2 if thorough else 1)
     # ---- 3. programs with subroutines
-    n_sub = 8000 if thorough else 900
+    n_sub = 8000 if thorough else 750
     for i in range(n_sub):
         version = rng.choice([4, 5, 6, 6, 7, 8, 8, 8, 9, 10, 10])
         app = rng.random() < 0.85
